@@ -339,6 +339,33 @@ class Repo:
             raise AnalysisError("anchor module %s not found" % full)
         return self.modules[full]
 
+    KNOWN_MODULES = (
+        "pydsdl", "pydsdl._bit_length_set", "pydsdl._bit_length_set._bit_length_set", "pydsdl._bit_length_set._symbolic", "pydsdl._data_schema_builder",
+        "pydsdl._data_type_builder", "pydsdl._dsdl", "pydsdl._dsdl_definition", "pydsdl._error", "pydsdl._expression", "pydsdl._expression._any",
+        "pydsdl._expression._container", "pydsdl._expression._operator", "pydsdl._expression._primitive", "pydsdl._namespace", "pydsdl._namespace_reader",
+        "pydsdl._parser", "pydsdl._port_id_ranges", "pydsdl._serdes", "pydsdl._serializable", "pydsdl._serializable._array", "pydsdl._serializable._attribute",
+        "pydsdl._serializable._composite", "pydsdl._serializable._name", "pydsdl._serializable._primitive", "pydsdl._serializable._serializable",
+        "pydsdl._serializable._void", "pydsdl._test", "pydsdl._test_serdes",
+    )
+
+    def with_satellites(self, mods: Any) -> List[str]:
+        """the given modules plus every module of the package that is *not one of the modules the rules know by name* and
+        from which one of them (transitively) imports: code that was moved out of a known module into a new private one is
+        still part of that module's layer"""
+        out = [m if m.startswith("pydsdl") else "pydsdl." + m for m in mods]
+        work = list(out)
+        while work:
+            m = self.modules.get(work.pop())
+            if m is None:
+                continue
+            for imp in m.imports.values():
+                cands = [imp[1]] if imp[0] == "module" else [((imp[1] + "." + imp[2]) if imp[1] else imp[2]), imp[1]]
+                for c in cands:
+                    if c in self.modules and c not in out and c not in Repo.KNOWN_MODULES and not c.startswith("pydsdl.third_party"):
+                        out.append(c)
+                        work.append(c)
+        return out
+
     def cls(self, short: str) -> ClassInfo:
         """`_serializable._composite.CompositeType` (module-qualified short name) or a unique bare class name."""
         full = "pydsdl." + short
